@@ -102,6 +102,29 @@ def _ref_low_dequote(s: str) -> str:
     return "".join(out)
 
 
+def _received(writes):
+    """what a receiving IRCClient delivers for the written lines: [(command, target, message), ...]
+    (None when the receiver takes another path, e.g. CTCP)"""
+    from twisted.words.protocols import irc
+    got = []
+
+    class R(irc.IRCClient):
+        performLogin = False
+        nickname = "peer"
+
+        def privmsg(self, user, channel, message):
+            got.append(("PRIVMSG", channel, message))
+
+        def noticed(self, user, channel, message):
+            got.append(("NOTICE", channel, message))
+
+    r = R()
+    r.makeConnection(_Transport())
+    for w in writes:
+        r.dataReceived(w)
+    return got
+
+
 def _nonspace(s: str) -> str:
     return "".join(c for c in s if not c.isspace())
 
@@ -152,6 +175,10 @@ def oracle(case, obs):
             return Failure(case, "textwrap.wrap changed the non-whitespace content", "textwrap-spec-content")
         if any(c not in line and c != " " for p in pieces for c in p):
             return Failure(case, "textwrap.wrap produced a character that is not in the line", "textwrap-spec-chars")
+    # textwrap normalises every ASCII whitespace character to a space
+    for line, pieces in zip(case["message"].split("\n"), table):
+        if any(c in "\t\n\x0b\x0c\r" for p in pieces for c in p):
+            return Failure(case, "textwrap.wrap left a TAB/LF/VT/FF/CR in a piece", "textwrap-spec-whitespace")
     writes = [bytes.fromhex(x) for x in obs.split("|")] if obs else []
     parts = []
     over = None
@@ -167,11 +194,27 @@ def oracle(case, obs):
             return Failure(case, f"line {wr!r} is not UTF-8", "not-utf8")
         if not text.startswith(fmt):
             return Failure(case, f"line {text!r} does not start with {fmt!r}", "prefix")
-        parts.append(text[len(fmt):])
+        part = text[len(fmt):]
+        # what the receiver reconstructs (after low-level dequoting) must be a piece of the message with its
+        # whitespace normalised: a CR or LF of the text must not travel as M_QUOTE 'r' / M_QUOTE 'n' and come
+        # back as a CR / LF inside the delivered message
+        if "\r" in part or "\n" in part:
+            return Failure(case, f"line {wr!r}: the receiver reconstructs {part!r}, which contains a CR/LF of the "
+                           f"text (sent low-quoted) instead of the whitespace-normalised piece", "quoted-cr-lf-in-part")
+        if any(c in "\t\x0b\x0c" for c in part):
+            return Failure(case, f"line {wr!r}: reconstructed part {part!r} contains un-normalised whitespace",
+                           "unnormalised-whitespace-in-part")
+        parts.append(part)
         if len(text) + 2 > limit:
             return Failure(case, f"line of {len(text) + 2} characters for limit {limit}", "char-limit")
         if len(wr) > limit and over is None:
             over = (wr, text)
+    # the same through a real receiving IRCClient (when the message does not take the CTCP path)
+    if "\x01" not in case["message"] and " " not in case["user"] and writes:
+        got = _received(writes)
+        want = [(case["type"], case["user"], p) for p in parts]
+        if got != want:
+            return Failure(case, f"a receiving IRCClient delivers {got[:3]!r}, the lines carry {want[:3]!r}", "receiver-delivery")
     if _nonspace("".join(parts)) != _nonspace(case["message"]):
         return Failure(case, f"message parts {parts!r} do not carry the non-whitespace content of {case['message']!r}",
                        "content-lost")
@@ -179,8 +222,8 @@ def oracle(case, obs):
         wr, text = over
         if any(ord(c) > 127 for c in text):
             tag = "octet-limit-multibyte"
-        elif any(c in "\x00\x10\r\n" for c in text):
-            tag = "octet-limit-lowquote-expansion"
+        elif any(c in "\x00\x10" for c in text):
+            tag = "octet-limit-lowquote-expansion"      # DLE / NUL of the text itself, doubled by lowQuote
         else:
             tag = "octet-limit"
         return Failure(case, f"line of {len(wr)} octets for limit {limit}: {wr[:60]!r}...", tag)
@@ -226,6 +269,7 @@ def corpus():
         {"kind": "send", "type": "NOTICE", "user": "nick", "message": "hello world\nsecond line\r\n\nlast", "length": None},
         {"kind": "send", "type": "PRIVMSG", "user": "u", "message": "x", "length": 13},
         {"kind": "send", "type": "PRIVMSG", "user": "u", "message": "x y", "length": 14},
+        {"kind": "send", "type": "PRIVMSG", "user": "foo", "message": "ab\rcd", "length": 20},
         {"kind": "quote", "s": "\x10\x00\n\r\x100n\x10"},
         {"kind": "quote", "s": "\\\x01\\a\x01b\\"},
     ]
@@ -256,6 +300,16 @@ def gen(rng, tier):
         if length is None and rng.random() < 0.5:
             case["nicklen"] = rng.choice([1, 9, 30, 200, 330])
         cases.append(case)
+    # texts with bare CRs and no LF that fit one line, at and just below the limit
+    for _ in range(120 if tier == "quick" else 1200):
+        typ, user = rng.choice(["PRIVMSG", "NOTICE"]), rng.choice(["u", "#c", "foo"])
+        minimum = len("%s %s :" % (typ, user)) + 2
+        words = [rng.choice(["ab", "cd", "x", "hello", "e-f"]) for _ in range(rng.randrange(2, 6))]
+        msg = words[0] + "".join(rng.choice(["\r", "\r", " ", "\r\r", "\t"]) + w for w in words[1:])
+        if rng.random() < 0.2:
+            msg = rng.choice(["\r", ""]) + msg + rng.choice(["\r", ""])
+        cases.append({"kind": "send", "type": typ, "user": user, "message": msg,
+                      "length": minimum + len(msg) + rng.choice([0, 0, 1, 2, 3, 10, -1])})
     # plain ASCII messages (the class of the _partial theorem) with widths around word boundaries
     for _ in range(150 if tier == "quick" else 600):
         typ, user = "PRIVMSG", rng.choice(["u", "#c"])
